@@ -666,3 +666,20 @@ package ast
 //@   ensures result.1 == nil ==> len(result.0) >= 1
 //@   loop 1 invariant lexOk(s) && s.r.data == old(s.r.data) && s.r == old(s.r)
 //@   loop 1 decreases len(s.r.data) - s.r.pos
+
+// ---- binding powers of the Pratt expression parser (C11) ----
+// multiplicative > additive > comparisons > and/or; one level associates to the left (left
+// power below right power); prefix operators bind tighter than every binary operator.
+//@ func infixPrecedence [C11]
+//@   ensures leftassoc: isBinTok(tokenType) ==> 0 < result.0 && result.0 < result.1
+//@   ensures mul: (tokenType == MULT || tokenType == DIV || tokenType == MOD) ==> result.0 >= 9 && result.1 <= 10
+//@   ensures add: (tokenType == PLUS || tokenType == MINUS) ==> result.0 >= 7 && result.1 <= 8
+//@   ensures cmp: (tokenType == DEQUAL || tokenType == NEQUAL || tokenType == LESS || tokenType == GREATER || tokenType == LESSEQ || tokenType == GREATEREQ) ==> result.0 >= 3 && result.1 <= 6
+//@   ensures log: (tokenType == AND || tokenType == OR) ==> result.0 >= 1 && result.1 <= 2
+//@   ensures other: !isBinTok(tokenType) ==> result.0 == -1 && result.1 == -1
+//@ pred isBinTok(t Int) := t == AND || t == OR || t == PLUS || t == MINUS || t == MOD || t == MULT || t == DIV || t == LESS || t == GREATER || t == LESSEQ || t == GREATEREQ || t == DEQUAL || t == NEQUAL
+//@ func prefixPrecedence [C11]
+//@   ensures prefix: (tokenType == NOT || tokenType == HEAD || tokenType == TAIL) ==> result > 10
+//@   ensures other: !(tokenType == NOT || tokenType == HEAD || tokenType == TAIL) ==> result == -1
+//@ func isBinaryOp [C11]
+//@   ensures result == isBinTok(tokenType)
